@@ -72,6 +72,10 @@ const LOOPED: &[&str] = &[
     "match \"a\" { \"a\"..\"c\" | \"x\" => 1, _ => 2 };", "let f = fn() { i }; f();", "fn h(n) { if n > 0 { h(n - 1) } } h(3);",
     "let k = fn() { let n = 0; fn() { n = n + 1; n } }(); k();", "{ let b = 1; b + 1; }", "{ }", "q0();", "q1();", "q2(i);",
     "$0;", "$1;", "if $0 { 1 };", "NP;", "argv;", "let t = [i, [i]]; t[1][0];", "str(i);", "a[0] = a[0] + 1;", "x = y = i;",
+    // statements that must either be rejected or stay balanced: assignments to something that is not assignable,
+    // a dot followed by something that is not a property, an else without a block
+    "stdout = 1;", "len(a) = 1;", "null = 1;", "$0 = 1;", "[1] = 2;", "if x > 1 { 1 } else { 2 } = 3;", "x.true;", "x.null;", "x.if x > 1 { 1 } else { 2 };",
+    "if x > 1 { 1 } else 2;", "g(1) = 2;", "NP = 1;",
     "while false { 1; }", "loop { break; }", "let w = 0; while w < 2 { w = w + 1; if w == 1 { continue; } 1 + 2; }",
 ];
 
@@ -253,7 +257,7 @@ impl Property for P07 {
                 Front::Compiled(bc) => bc,
                 Front::CompileError(m, _) => return Ok((format!("compile-error"), 0, 0, 0)),
                 // the block grammar also produces texts the parser rejects (e.g. an unterminated item before another)
-                Front::ParseErrors(_) if c.family.starts_with("F4") => return Ok((format!("compile-error"), 0, 0, 0)),
+                Front::ParseErrors(_) if c.family.starts_with("F4") || c.family.starts_with("F3") => return Ok((format!("compile-error"), 0, 0, 0)),
                 Front::ParseErrors(e) => return Err(format!("harness program does not parse: {:?}\n{}", e, src)),
             };
             let mut funcs = functions_of(&bc);
